@@ -96,9 +96,10 @@ def check_tree(exceptions, errors, instance):
                         return "indexing an error-free element gives a non-empty tree"
                     break
     except Exception as ex:      # noqa
-        # only claimed when the root node's recorded instance is the validated instance
+        # not claimed only when the root recorded an instance other than the validated one (hand-made errors); a root
+        # without an error of its own records no instance and indexing it creates an empty child
         roots = [e for e in errors if not e.path]
-        if roots and all(e.instance is instance or e.instance == instance for e in roots):
+        if not roots or all(e.instance is instance or e.instance == instance for e in roots):
             return "indexing an existing error-free element raised %s" % type(ex).__name__
     return None
 
